@@ -83,8 +83,45 @@ fn arb_link_op() -> impl Strategy<Value = Op> {
     ]
 }
 
+/// Command bodies for the map lane that are not map messages: the runtime rejects them before they
+/// reach the lane (`extract_header` fails, `BadEnvelope`). They were nevertheless RECEIVED for the
+/// lane: lane counter and aggregate must both count them.
+const MALFORMED_MAP: [&str; 9] = ["garbage", "", "5", "@unknown(key:1) 2", "@update(key:", "@update", "{a:1}", "@remove", "@update(key:1"];
+/// Bodies the runtime forwards but the lane cannot decode (the agent task fails with a user-code
+/// error and the agent stops): (lane index, body).
+const ILL_TYPED: [(u8, &str); 7] = [
+    (0, "not_a_number"),
+    (1, "@@@"),
+    (4, "\"text\""),
+    (5, "x"),
+    (2, "@update(key:notint) 5"),
+    (2, "@update(key:1) text"),
+    (2, "@remove(key:{a:1})"),
+];
+
+/// Does the runtime accept the body as a map message (and forward it to the lane)?
+pub fn is_map_message(body: &str) -> bool {
+    swimos_agent_protocol::peeling::extract_header(&bytes::Bytes::copy_from_slice(body.as_bytes())).is_ok()
+}
+
+/// A map message the lane `MapLane<i32, i64>` can decode.
+fn well_typed_map_message(body: &str) -> bool {
+    let int = |s: &str| s.trim().parse::<i64>().is_ok();
+    if body == "@clear" {
+        return true;
+    }
+    if let Some(rest) = body.strip_prefix("@remove(key:") {
+        return rest.strip_suffix(')').map(int).unwrap_or(false);
+    }
+    if let Some(rest) = body.strip_prefix("@update(key:") {
+        return rest.split_once(") ").map(|(k, v)| int(k) && int(v)).unwrap_or(false);
+    }
+    false
+}
+
 fn arb_event_op(nprogs: usize) -> impl Strategy<Value = Op> {
     prop_oneof![
+        3 => (any::<u16>(), 0usize..MALFORMED_MAP.len()).prop_map(|(r, i)| Op::Cmd { r, lane: 2, body: MALFORMED_MAP[i].to_string() }),
         4 => (any::<u16>(), 0u8..2).prop_map(|(r, lane)| Op::Cmd { r, lane, body: String::new() }),
         3 => (any::<u16>(), 0i32..4).prop_map(|(r, k)| Op::Cmd { r, lane: 2, body: format!("@update(key:{}) #", k) }),
         1 => (any::<u16>(), 0i32..4).prop_map(|(r, k)| Op::Cmd { r, lane: 2, body: format!("@remove(key:{})", k) }),
@@ -103,6 +140,7 @@ fn arb_mixed_op(nprogs: usize) -> impl Strategy<Value = Op> {
         2 => any::<u16>().prop_map(|r| Op::Drop { r }),
         // long enough to prune a remote without links (prune delay 200 ms in half of the cases)
         1 => Just(Op::Advance { ms: 400 }),
+        1 => (any::<u16>(), 0usize..ILL_TYPED.len()).prop_map(|(r, i)| Op::Cmd { r, lane: ILL_TYPED[i].0, body: ILL_TYPED[i].1.to_string() }),
         2 => (any::<u16>(), prop_oneof![Just(0u8), Just(2), Just(3)]).prop_map(|(r, kind)| match kind {
             0 => Op::Link { r, lane: 6 },
             2 => Op::Sync { r, lane: 6 },
@@ -323,8 +361,36 @@ pub fn check(case: &Case) -> Verdict {
         }
         eprintln!("trace {:?}", obs.trace);
     }
+    // commands the runtime forwards but the lane cannot decode make the agent task fail (by design:
+    // `AgentTaskError::UserCodeError`); everything else must leave it running
+    let mut malformed_map = 0usize;
+    let mut ill_typed = 0usize;
+    for (_, sent) in &obs.remotes {
+        for (lane, req, _, w) in sent {
+            if let (Req::Command(body), true) = (req, w.is_some()) {
+                let text = String::from_utf8_lossy(body).to_string();
+                match lane.as_str() {
+                    "m0" => {
+                        if !is_map_message(&text) {
+                            malformed_map += 1;
+                        } else if !well_typed_map_message(&text) {
+                            ill_typed += 1;
+                        }
+                    }
+                    "v0" | "v1" | "cmd" | "ctl" => {
+                        if text.trim().parse::<i64>().is_err() {
+                            ill_typed += 1;
+                        }
+                    }
+                    _ => {}
+                }
+            }
+        }
+    }
     if let Some(Err(e)) = &obs.result {
-        v.fail("sim:agent-failed", format!("the agent task ended with an error: {}", e));
+        if ill_typed == 0 {
+            v.fail("sim:agent-failed", format!("the agent task ended with an error: {}", e));
+        }
     }
     for l in ALL_AGENT_LANES {
         if !obs.registered.iter().any(|r| r == l) {
@@ -675,6 +741,9 @@ pub fn check(case: &Case) -> Verdict {
     v.class_if(nt, "exact-event-accounting");
     v.class_if(exact_phases >= 2, "exact-phases>=2");
     v.class_if(any_mixed, "mixed-phase");
+    v.class_if(malformed_map > 0, "malformed-map-command-delivered");
+    v.class_if(ill_typed > 0, "ill-typed-command-delivered");
+    v.class_if(matches!(&obs.result, Some(Err(_))), "agent-failed-on-ill-typed-command");
     v.class_if(obs.checkpoints.iter().any(|c| c.completed.iter().any(|x| *x)), "remote-removed-by-runtime");
     v.class_if(obs.checkpoints.last().map(|c| c.done).unwrap_or(false), "agent-stopped");
     v.class_if(tainted.iter().any(|t| *t), "lane-possibly-emptied-by-remove_remote");
